@@ -23,16 +23,24 @@ theorem c02_capacity (hn : 0 < n) (hr : ReachableX n s) : s.tail - s.head ≤ s.
   have := h.hTN
   rw [abs_length s h]; omega
 
-/-- every micro-step is either invisible, or exactly one abstract enqueue at the back (and the thread then returns
-    exactly the abstract result), or exactly one abstract dequeue of the front element (and the thread returns it) -/
+/-- every micro-step is either invisible, or exactly one abstract enqueue at the back (the thread then goes on to measure
+    the length it reports, `c02_sent_len`), or exactly one abstract dequeue of the front element (and the thread returns it) -/
 theorem c02_step_abs (hn : 0 < n) (hr : ReachableX n s) (t : Nat) :
     abs (step s t) = abs s
     ∨ (∃ v id len, s.thr t = .pPublish v id len ∧ abs (step s t) = abs s ++ [v] ∧ (abs s).length < s.N
-          ∧ (step s t).thr t = .done (.sent len))
+          ∧ (step s t).thr t = .pLen id)
     ∨ (∃ id idx g, s.thr t = .rPub id idx g ∧ abs (step s t) = abs s ++ [s.buf idx] ∧ (abs s).length < s.N
           ∧ ∃ r, (step s t).thr t = .done (.pubIdx (some r)))
     ∨ (∃ id v, s.thr t = .cRelease id v ∧ abs s = v :: abs (step s t) ∧ (step s t).thr t = .done (.got v)) :=
   step_abs s t (reachable_inv hn hr)
+
+/-- the length an accepted `send` reports is measured after the publication: the number of elements up to and including
+    its own that are still unreleased at that instant (never less than 1, never more than `N`) -/
+theorem c02_sent_len (hn : 0 < n) (hr : ReachableX n s) (t id : Nat) (ht : s.thr t = .pLen id) :
+    (step s t).thr t = .done (.sent (max 1 (id + 1 - s.head))) ∧ max 1 (id + 1 - s.head) ≤ s.N ∧ id < s.tail := by
+  have h := reachable_inv hn hr
+  have := h.lenOk t id ht; have := h.hTN; have := h.npos
+  refine ⟨by simp [step, ht], by omega, by omega⟩
 
 /-- calls, `fill`, acknowledgements: never visible (holds in every state, reachable or not) -/
 theorem c02_call_abs (s : St) (a : Act) (h : ∀ t, a ≠ .step t) : abs (apply s a) = abs s :=
@@ -70,7 +78,7 @@ theorem c02_empty_witness (hn : 0 < n) (hr : ReachableX n s) (t : Nat) :
     · rcases step_done_origin s t _ h2 with h' | h' | h' | h' | h' | h' | h' | h'
       · exact Or.inl h'
       · obtain ⟨_, _, _, _, _, _, e⟩ := h'; cases e
-      · obtain ⟨_, _, _, _, _, e⟩ := h'; cases e
+      · obtain ⟨_, _, e⟩ := h'; cases e
       · obtain ⟨_, _, _, _, _, e⟩ := h'; cases e
       · obtain ⟨_, _, _, _, _, e⟩ := h'; cases e
       · obtain ⟨h, w, e1, e2, _⟩ := h'
@@ -103,7 +111,7 @@ theorem c02_full_witness (hn : 0 < n) (hr : ReachableX n s) (t : Nat) :
     · obtain ⟨v, id, rsv, w, e1, e2, _⟩ := h'
       have := hi.recOk t v id rsv w e1; subst this
       exact Or.inr ⟨h1, v, id, rsv, e1, e2⟩
-    · obtain ⟨_, _, _, _, _, e⟩ := h'; cases e
+    · obtain ⟨_, _, e⟩ := h'; cases e
     · obtain ⟨_, _, _, _, _, e⟩ := h'; cases e
     · obtain ⟨_, _, _, _, _, e⟩ := h'; cases e
     · obtain ⟨_, _, _, _, e⟩ := h'; cases e
@@ -125,7 +133,8 @@ example : ReachableX 2 (run (init 2) fullRun) ∧ abs (run (init 2) fullRun) = [
 
 /-- a state in which the next step of thread 0 is the enqueue linearization point (2nd disjunct of `c02_step_abs`) -/
 example : let s := run (init 2) [.send 0 5, .step 0, .step 0, .step 0]
-    s.thr 0 = .pPublish 5 0 1 ∧ abs (step s 0) = abs s ++ [5] := by decide
+    s.thr 0 = .pPublish 5 0 0 ∧ abs (step s 0) = abs s ++ [5] ∧ (step s 0).thr 0 = .pLen 0 ∧
+      (step (step s 0) 0).thr 0 = .done (.sent 1) := by decide
 
 /-- … the index-based publish (3rd disjunct) -/
 example : let s := run (init 2) [.reserve 0, .step 0, .step 0, .ack 0, .fill 0 9, .pubIdx 0]
@@ -142,6 +151,7 @@ example : (run (init 2) [.recv 0, .step 0, .step 0, .step 0, .send 1 5, .step 1,
 
 #print axioms c02_capacity
 #print axioms c02_step_abs
+#print axioms c02_sent_len
 #print axioms c02_call_abs
 #print axioms c02_empty_witness
 #print axioms c02_full_witness
